@@ -9,7 +9,11 @@ from common import check_cache, fail, make_sd, net_info, owned, run_history, sta
 BOUND = ("networks with <= 6(7) variables (exhaustive 1-variable, sampled 2-variable, seeded random) and hand-built networks with <= 9 variables (fixed-point and "
          "complex attractors, motif-avoidant ones); every node after a seeded prefix (none / root only / full bfs / block / scc / <= 3 random calls incl. skipping); "
          "sets requested before seeds, after seeds, after candidates, after reclaim_node_data, after a pickle round trip; fallback called directly "
-         "(symbolic_attractor_fallback) and through node_attractor_seeds(symbolic_fallback=True) with attractor_candidates_limit in {0,1} on a twin diagram")
+         "(symbolic_attractor_fallback) and through node_attractor_seeds(symbolic_fallback=True) with attractor_candidates_limit in {0,1} on a twin diagram; the skip-overlap shape: "
+         "a motif-avoidant module with 1-3 bistable side modules (independent or reading a module variable; <= 7 variables), root expanded only, then skip_to_minimal on one or two "
+         "children / skip_remaining / minimal-space expansion with skipping, optionally seeds or candidates of a sibling first, reclaim or pickle; on skip nodes the direct fallback "
+         "is compared with the default method under the same cache state (minimum_simulation_budget in {1,10,50,default}; 70% of these cases look at the skip nodes only, half "
+         "without the twin)")
 RULE = "non-trivial = some node of the case reports a non-fixed-point attractor or at least two attractors"
 CASE_TIMEOUT = 60.0
 
@@ -23,7 +27,7 @@ def skip_overlap_cases(seed, tier):
     is not computed yet (or was computed / reclaimed): root expanded only, skip_to_minimal on one or several children / skip_remaining, optionally seeds of
     a sibling first or reclaim_node_data; networks: a motif-avoidant module with 1-3 bistable side modules (families.maa_overlap_nets) and the
     hand-built motif-avoidant networks."""
-    nets = list(families.maa_overlap_nets(seed, tier))
+    nets = [n for n in families.maa_overlap_nets(seed, tier) if len(families.variables(n[1])) <= 7]
     extra = [(k, v) for k, v in families.maa_nets()]
     nets = [x for k, n in enumerate(nets) for x in ([n] + ([extra[k // 4]] if k % 4 == 3 and k // 4 < len(extra) else []))]
     prefixes = [[["succ", 0], ["skip", 1]], [["succ", 0], ["skip", 2]], [["succ", 0], ["skip", 3]], [["succ", 0], ["skip", 4]], [["bfs", None, 0, None], ["skip_remaining"]],
@@ -38,11 +42,14 @@ def skip_overlap_cases(seed, tier):
         else:
             picks = [(p, rng.choice(ORDERS)) for p in rng.sample(prefixes[:7], 2) + rng.sample(prefixes[7:], 1)]
         for pre, order in picks:
-            yield {"net": name, "bnet": bnet, "prefix": pre, "order": order, "fallback_limit": 1 if k < 2 else rng.choice([0, 1])}
+            # (cost) the random-walk elimination of candidates cannot remove a genuine motif-avoidant attractor: most of the cases give it a small budget
+            # half of them leave out the twin diagram (the fallback is then only called directly) and 70% look at the skip nodes only
+            cfg = {} if rng.random() < 0.2 else {"minimum_simulation_budget": rng.choice([1, 10, 50])}
+            yield {"net": name, "bnet": bnet, "config": cfg, "prefix": pre, "order": order, "fallback_limit": 1 if k < 2 else rng.choice([0, 1]), "twin": k < 2 or rng.random() < 0.5, "only_skipped": k >= 2 and rng.random() < 0.7}
 
 
 def cases(seed, tier):
-    yield from families.interleave((skip_overlap_cases(seed, tier), 1), (general_cases(seed, tier), 5))
+    yield from families.interleave((skip_overlap_cases(seed, tier), 1), (general_cases(seed, tier), 20))
 
 
 def general_cases(seed, tier):
@@ -73,17 +80,21 @@ def check_with_info(case):
     info = net_info(net)
     info["interesting_nodes"] = 0
     out = []
-    sd = make_sd(case["bnet"])
+    sd = make_sd(case["bnet"], case.get("config"))
     sd, _ = run_history(sd, case["prefix"])
     # twin: same prefix with the default configuration, THEN a tiny candidate limit so that the default method raises and the fallback runs
-    twin = make_sd(case["bnet"])
+    twin = make_sd(case["bnet"], case.get("config"))
     twin, _ = run_history(twin, case["prefix"])
     twin.config["attractor_candidates_limit"] = case["fallback_limit"]
     twin.config["retained_set_optimization_threshold"] = 0
+    if not case.get("twin", True):
+        twin = None
     base = pickle.dumps(sd)
     direct = pickle.loads(base)
     order = case["order"]
     for i in list(sd.node_ids()):
+        if case.get("only_skipped") and not sd.node_data(i)["skipped"]:
+            continue
         if order == "seeds_first":
             sd.node_attractor_seeds(i, compute=True)
         elif order == "cands_first":
